@@ -3,7 +3,8 @@ explores through the real library. Nothing in here decides a verdict."""
 import random
 from vlib import *
 
-ALLSRC = ("vec", "iter", "iterx", "slice", "range", "deque", "list", "btree", "vecadv", "dequeref", "btreeref")
+ALLSRC = ("vec", "iter", "iterx", "slice", "range", "deque", "list", "btree", "vecadv", "dequeref", "btreeref",
+          "hashset", "hashsetref", "heap", "heapref", "listref")
 OWNING = ("vec", "iter", "iterx", "deque", "list", "btree", "vecadv")
 
 
